@@ -50,6 +50,20 @@ def gen_cases(ctx, rng):
                     stats["enders"][ender] = stats["enders"].get(ender, 0) + 1
                     stats["pending_upstream_when_downstream_went_away"] += 1 if pending else 0
                     cases.append(c)
+    # a connection that a timeout toxic holds open (T = 0 black-holes it for ever) ends when its sender hangs up: nothing may stay behind
+    for rep in range(reps):
+        for chain0 in chains[:4]:
+            for nwr in (0, 2, 9):
+                chain = json.loads(json.dumps(chain0))
+                chain.insert(rng.range(0, len(chain)), L.tx("timeout", name="t", timeout=0))
+                src, t = [], 2 * L.MS
+                for _ in range(nwr):
+                    src.append({"at": t, "n": rng.range(10, 400)})
+                    t += rng.choice([0, 1, 9]) * L.MS
+                src.append({"at": t + 300 * L.MS, "close": True})
+                cases.append({"dir": rng.choice(["upstream", "downstream"]), "chain": chain, "src": src, "horizon": 3600 * 1000 * L.MS,
+                              "seed": len(cases), "ender": "blackholed_src_eof", "pending_when_downstream_gone": False})
+                stats["enders"]["blackholed_src_eof"] = stats["enders"].get("blackholed_src_eof", 0) + 1
     # reconfiguration while the connection is ending: a toxic removed / the chain reset / a toxic added while an end-of-stream is held back
     # by slow_close or still travelling behind data parked in a latency stage
     stats["reconfigured_while_ending"] = 0
@@ -187,7 +201,7 @@ def tcp_scenarios(ctx, n):
 
 def run(ctx):
     def side(ctx2, proof):
-        tcp_fail, tcp_cov = tcp_scenarios(ctx2, (12 if ctx2.tier == "quick" else 240) * (1 if proof["build_ok"] else 3))
+        tcp_fail, tcp_cov = T.stable(lambda: tcp_scenarios(ctx2, (12 if ctx2.tier == "quick" else 240) * (1 if proof["build_ok"] else 3)))
         return [(kc or key, what, rp) for key, what, rp, kc in tcp_fail], tcp_cov
 
     if True:
